@@ -50,6 +50,19 @@ add("C12", "E4 bytefault", "fault_enumeration", "deviation-bounded exhaustive co
     "(bound 2); each buffer the parser accepts is queried with the full universe incl. lines 0, 2^32 and 2^64-1 with overflow checks compiled in; every returned string must lie inside the buffer or the query.",
     "Trusted: rustc/std; overflow-checks/debug-assertions build profile; address-range check on returned slices. Debug/Display helpers and ProguardCache::test() are outside the property's list.", "DESIGN.md §4 C12")
 
+TEXT_NOTE = "Trusted: rustc/std. Bounded: the alphabets and depths listed in the evidence file; bytes outside the alphabets are not explored."
+add("C05", "E2 textspace", "model_checking", "bounded-exhaustive enumeration of record ASTs, their documented malformations and all short token strings, real parser vs AST / independent recogniser",
+    "Every record AST of a ~10^5-line space (all combinations of the optional groups, numbers 0..2^40, identifiers with $ < > - [] digits non-ASCII) is printed and parsed alone (4 terminators) and inside a file; the record must carry exactly the AST's parts. "
+    "Every documented malformation of those lines must be an error carrying the offending line. All strings of <=7 (thorough 8) tokens over a 12-token alphabet are judged by an independent recogniser of the documented grammar. Every corpus line alone vs in its file.",
+    TEXT_NOTE + " The recogniser's NAME is deliberately narrow; outside it no claim is made.", "DESIGN.md §4 C05")
+add("C06", "E2 textspace", "model_checking", "bounded-exhaustive enumeration of byte strings, token strings and (A,B) pairs on the real record iterator; invariant + compositionality oracle",
+    "All byte strings of length <=7 over 9 symbols, all strings of <=5 (thorough 6) tokens over 16 hostile tokens, every LF split of each, all pairs (A<=4 tokens, B<=2 tokens), and line-boundary splits of the corpus: "
+    "iteration ends within len+1 items without panic, no yielded string contains CR/LF, records(A+LF+B) = records(A)++records(B).",
+    TEXT_NOTE + " Reading I3: zero-length error items are ignored. Corpus files > 100 kB are split at a stride of line boundaries (stated in the evidence).", "DESIGN.md §4 C06")
+add("C19", "E2 textspace", "model_checking", "bounded-exhaustive enumeration of files over a 14-line alphabet plus positional families, real metadata API vs an independent fold over the record stream",
+    "Every file of <=6 (thorough 7) lines over 14 line kinds (with and without final newline) and positional families around the 50-item window and late line-mapped methods: has_line_info, is_valid and the five summary fields must equal an independent fold over iter().",
+    TEXT_NOTE + " The record stream itself is the subject of C05/C06.", "DESIGN.md §4 C19")
+
 manifest = {
     "version": 1,
     "setup_cmd": "mkdir -p target && (cd pgmc && CARGO_NET_OFFLINE=true cargo build --release --offline) && (test ! -f shim/getrandom_shim.c || gcc -O2 -shared -fPIC -o shim/getrandom_shim.so shim/getrandom_shim.c)",
@@ -61,6 +74,8 @@ manifest = {
         "add_only": True,
     },
     "engines": [
+        {"name": "E2 textspace", "path": "pgmc/src/props/c05.rs pgmc/src/props/c06.rs pgmc/src/props/c19.rs", "serves_properties": [i for i in C if C[i]["engine"].startswith("E2")],
+         "kind_free_text": "DFS over byte / token / line strings; real parser on every string; AST, recogniser, compositionality and fold oracles"},
         {"name": "E4 bytefault", "path": "pgmc/src/props/e4.rs", "serves_properties": [i for i in C if C[i]["engine"].startswith("E4")],
          "kind_free_text": "crash-point / corruption enumeration over cache files with an explicit deviation bound; real parser + queries on every faulted buffer"},
         {"name": "E1 mapspace", "path": "pgmc/src/e1.rs", "serves_properties": [i for i in C if C[i]["engine"].startswith("E1")],
